@@ -21,12 +21,23 @@
 (*                  been seen) decisions are the rescue bucket's           *)
 (*   Return         after Up and the monitor's successful ping decisions   *)
 (*                  are Redis' again                                       *)
+(*                                                                         *)
+(* Real (wall-clock) time is a third clock the statement does not mention: *)
+(* the bucket counts in seconds of the clock supplied by the caller, and   *)
+(* "returns to Redis once it answers again" holds however long the outage  *)
+(* has lasted.  Wait(h) - h ms of real time pass while Redis is            *)
+(* unreachable - therefore changes nothing of the state; it is a step of   *)
+(* its own so that generated behaviours carry the outage DURATION as an    *)
+(* input (the mechanism waits on a 100 ms wall-clock ticker: a monitor     *)
+(* that gives up, or whose pings stop succeeding after a while, satisfies  *)
+(* Return for short outages only).                                         *)
 (***************************************************************************)
 EXTENDS Integers, Sequences, FiniteSets, TLC
 
 CONSTANTS Configs,   \* set of <<rate, burst>> with 2*burst >= rate, rate >= 1, burst >= 1
           MaxN,      \* largest request size
-          MaxStep    \* largest single clock advance
+          MaxStep,   \* largest single clock advance
+          Holds      \* real-time durations (ms) an outage may be held for (may be empty)
 
 VARIABLES rate, burst,
           now, srv,          \* caller clock, server clock
@@ -130,8 +141,15 @@ Ping ==
   /\ out' = [op |-> "ping"]
   /\ UNCHANGED <<rate, burst, now, srv, tok, ts, ttlx, alive, rtok, rlast, rused, ib, glog>>
 
+\* h ms of real time pass during an outage: neither clock of the statement moves, nothing changes
+Wait(h) ==
+  /\ ~alive
+  /\ out' = [op |-> "hold", ms |-> h]
+  /\ UNCHANGED core
+
 Next ==
   \/ \E n \in 1..MaxN : Allow(n)
+  \/ \E h \in Holds : Wait(h)
   \/ \E dc \in 1..MaxStep, ds \in 0..MaxStep : ds <= dc /\ Tick(dc, ds)
   \/ Down \/ Up \/ Ping
 
